@@ -547,6 +547,7 @@ Proof.
     destruct (mem c (woken (step cfg st (Checkout c)))); cbn; reflexivity.
 Qed.
 
+Ltac crunch := repeat (rewrite ?Nat.eqb_refl; cbn -[Nat.ltb Nat.leb approvals Nat.eqb]).
 Ltac stepc := unfold step, enabled, try_get, put_idle, notify_one, replenish, in_flight; cbn -[Nat.ltb Nat.leb approvals Nat.eqb].
 
 Lemma approvals_room : forall cfg st, num_conns st + pending st < max_size cfg -> approvals cfg st 1 = 1.
@@ -606,8 +607,13 @@ Proof.
     + apply (TAIL (upd (upd cl c Waiting) c Waiting)). intros d N. unfold upd. apply Nat.eqb_neq in N. rewrite N. reflexivity.
     + apply (TAIL (upd cl c Waiting)). intros d N. unfold upd. apply Nat.eqb_neq in N. rewrite N. reflexivity.
   - (* an idle connection *)
-    cbv zeta. unfold acquire. stepc. rewrite HC. cbn -[Nat.ltb approvals Nat.eqb]. unfold upd at 1. rewrite Nat.eqb_refl.
-    unfold getters; cbn -[Nat.eqb]. repeat split.
+    assert (E1 : step cfg (mkState num pend (s :: rest) [] [] perm cl hd dd nx) (Checkout c) =
+                 replenish cfg (mkState num pend rest [] [] perm (upd cl c (Holding s Fresh)) ((s, c) :: hd) dd nx)).
+    { unfold step, enabled, try_get. cbn -[replenish]. rewrite HC. reflexivity. }
+    assert (EA : acquire cfg (mkState num pend (s :: rest) [] [] perm cl hd dd nx) c =
+                 replenish cfg (mkState num pend rest [] [] perm (upd cl c (Holding s Fresh)) ((s, c) :: hd) dd nx)).
+    { unfold acquire. rewrite E1. cbn [clients replenish set_pending]. unfold upd at 1. rewrite Nat.eqb_refl. reflexivity. }
+    cbv zeta. rewrite EA. unfold getters; cbn. repeat split.
     + eexists. unfold upd. rewrite Nat.eqb_refl. reflexivity.
     + intros d N. rewrite UPD by exact N. reflexivity.
 Qed.
@@ -623,14 +629,14 @@ Lemma acquire_all_spec : forall cfg cs st,
   (forall d, ~ In d cs -> clients st' d = clients st d) /\ length (held st') = length (held st) + length cs.
 Proof.
   induction cs as [|c r IH]; intros st H G ND NS LE; cbn.
-  - repeat split; auto; try tauto. lia.
+  - split; [exact H|]. split; [exact G|]. split; [intros c []|]. split; [reflexivity|]. unfold acquire_all; cbn. lia.
   - inversion ND as [|? ? N1 N2]; subst. cbn in LE.
     destruct (acquire_spec cfg st c H G (NS c (or_introl eq_refl))) as (A & B & C & D); [lia|].
     specialize (IH (acquire cfg st c) (acquire_inv cfg st c H) A N2).
     destruct IH as (I1 & I2 & I3 & I4 & I5).
     + intros d I. rewrite C; [apply NS; right; exact I|]. intros E; subst; contradiction.
     + rewrite D. lia.
-    + unfold acquire_all in *. repeat split; try assumption.
+    + unfold acquire_all in *. split; [exact I1|]. split; [exact I2|]. split; [|split].
       * intros d [E|I]; [subst d|apply I3, I]. rewrite I4 by exact N1. exact B.
       * intros d N. rewrite I4 by tauto. apply C. intros E; subst; apply N; left; reflexivity.
       * rewrite I5, D. lia.
@@ -669,10 +675,10 @@ Proof.
   fold st' in I1, I2, I3, I4, I5. rewrite HE in I5. cbn in I5.
   pose proof (p_cap _ _ _ _ I1) as CAP. pose proof (p_cnt _ _ _ _ I1) as CNT.
   assert (IE : idleq st' = []) by (destruct (idleq st'); [reflexivity|cbn in CNT; lia]).
-  repeat split; try assumption; try lia.
-  - rewrite IE in CNT; cbn in CNT; lia.
-  - destruct (acquire_all_is_run cfg cs st) as (ops' & E & P). exists ops'. split; [|exact P].
-    subst st'. rewrite E. unfold run, run_from, st. rewrite fold_left_app. reflexivity.
+  assert (NM : num_conns st' = max_size cfg) by (rewrite IE in CNT; cbn in CNT; lia).
+  split; [exact I3|]. split; [lia|]. split; [exact IE|]. split; [exact NM|].
+  destruct (acquire_all_is_run cfg cs st) as (ops' & E & P). exists ops'. split; [|exact P].
+  subst st'. rewrite E. unfold run, run_from, st. rewrite fold_left_app. reflexivity.
 Qed.
 
 (** ** waiters are served *)
@@ -691,8 +697,8 @@ Proof.
                  (match o with TxnEndRelease _ _ => NoServer | _ => Gone end)) [s]) rest) [c]).
   { destruct O as [O|[how O]]; subst o; unfold step, enabled, release, put_back, put_idle, notify_one; rewrite HC; cbn; rewrite W, K, I; cbn; rewrite EI; reflexivity. }
   cbv zeta. rewrite E1. cbn -[step]. repeat split.
-  - unfold step, enabled, try_get; cbn. rewrite Nat.eqb_refl. cbn. rewrite Nat.eqb_refl. cbn. unfold upd. rewrite Nat.eqb_refl. reflexivity.
-  - unfold step, enabled, try_get; cbn. rewrite Nat.eqb_refl. cbn. rewrite Nat.eqb_refl. cbn. reflexivity.
+  - stepc. crunch. unfold upd. rewrite Nat.eqb_refl. reflexivity.
+  - stepc. crunch. reflexivity.
 Qed.
 
 (** a connection that comes back broken is closed; the capacity it frees is used for a new
@@ -715,19 +721,19 @@ Proof.
   assert (HL : 1 <= length (held st)).
   { assert (X : In (s, c') (held st)) by (apply (p_own _ _ _ _ H); eauto). destruct (held st); [contradiction|cbn; lia]. }
   assert (PF : permit st = false) by (apply (w_perm _ HW); rewrite W; discriminate).
-  destruct st as [num pend idle wait wok perm cl hd dd nx]. cbn in *. subst wait wok idle perm.
+  destruct st as [num pend idle wait wok perm cl hl dd nx]. cbn in *. subst wait wok idle perm.
   set (p1 := pend + approvals cfg (mkState (num - 1) pend [] (c :: rest) [] false
-                (upd cl c' (match o with TxnEndRelease _ _ => NoServer | _ => Gone end)) (drop_guard c' hd) (remove1 s dd) nx) (min_idle cfg - (0 + pend))).
-  assert (E1 : step cfg (mkState num pend [] (c :: rest) [] false cl hd dd nx) o =
-               mkState (num - 1) p1 [] rest [c] false (upd cl c' (match o with TxnEndRelease _ _ => NoServer | _ => Gone end)) (drop_guard c' hd) (remove1 s dd) nx).
+                (upd cl c' (match o with TxnEndRelease _ _ => NoServer | _ => Gone end)) (drop_guard c' hl) (remove1 s dd) nx) (min_idle cfg - (0 + pend))).
+  assert (E1 : step cfg (mkState num pend [] (c :: rest) [] false cl hl dd nx) o =
+               mkState (num - 1) p1 [] rest [c] false (upd cl c' (match o with TxnEndRelease _ _ => NoServer | _ => Gone end)) (drop_guard c' hl) (remove1 s dd) nx).
   { destruct O as [O|[how O]]; subst o; unfold step, enabled, release, put_back, notify_one, replenish; cbn -[approvals]; rewrite HC; cbn -[approvals]; reflexivity. }
   cbv zeta. rewrite E1. clear E1.
   assert (E2 : exists p2, 1 <= p2 /\ forall cl' hd' dd', step cfg (mkState (num - 1) p1 [] rest [c] false cl' hd' dd' nx) (Retry c) =
                mkState (num - 1) p2 [] (rest ++ [c]) [] false (upd cl' c Waiting) hd' dd' nx).
-  { exists (p1 + approvals cfg (mkState (num - 1) p1 [] rest [] false cl hd dd nx) (if p1 <? length rest + 0 + 1 then 1 else 0)). split.
+  { exists (p1 + approvals cfg (mkState (num - 1) p1 [] rest [] false cl hl dd nx) (if p1 <? length rest + 0 + 1 then 1 else 0)). split.
     - destruct p1 as [|q]; [|lia]. assert (EL : (0 <? length rest + 0 + 1) = true) by (apply Nat.ltb_lt; lia).
       rewrite EL. rewrite approvals_room; cbn; lia.
-    - intros cl' hd' dd'. stepc. rewrite Nat.eqb_refl. cbn -[Nat.ltb approvals Nat.eqb]. rewrite Nat.eqb_refl. cbn -[Nat.ltb approvals Nat.eqb].
+    - intros cl' hd' dd'. stepc. crunch.
       unfold approvals; cbn -[Nat.ltb]. reflexivity. }
   destruct E2 as (p2 & P2 & E2). rewrite E2. clear E2. cbn [num_conns woken waiters pending].
   assert (EI : match strat cfg with Fifo => [nx] | Lifo => [nx] end = [nx]) by (destruct (strat cfg); reflexivity).
@@ -739,8 +745,7 @@ Proof.
                  mkState (num - 1 + 1) (q2 - 0) [nx] ws [w] false cl' hd' dd' (S nx)).
   { intros. stepc. rewrite EI. reflexivity. }
   rewrite E3. cbn [idleq woken]. repeat split; try lia; try assumption.
-  stepc. rewrite Nat.eqb_refl. cbn -[Nat.ltb approvals Nat.eqb]. rewrite Nat.eqb_refl. cbn -[Nat.ltb approvals Nat.eqb].
-  unfold upd. rewrite Nat.eqb_refl. reflexivity.
+  stepc. crunch. unfold upd. rewrite Nat.eqb_refl. reflexivity.
 Qed.
 
 (** after a timeout the client task is back at the outer loop, holds nothing, is registered
@@ -758,10 +763,11 @@ Proof.
   { subst st1. unfold step, enabled. apply mem_In in I. rewrite I. reflexivity. }
   assert (C : clients st1 c = NoServer) by (rewrite E; cbn; unfold upd; rewrite Nat.eqb_refl; reflexivity).
   assert (NG : ~ In c (getters st1)) by (intros X; apply (p_w1 _ _ _ _ I1) in X; congruence).
-  repeat split; try (rewrite E; reflexivity); try assumption.
-  - intros X; apply NG; unfold getters; apply in_or_app; left; exact X.
-  - intros X; apply NG; unfold getters; apply in_or_app; right; exact X.
-  - unfold enabled. rewrite C. reflexivity.
+  split; [exact I1|]. split; [exact C|].
+  split; [intros X; apply NG; unfold getters; apply in_or_app; left; exact X|].
+  split; [intros X; apply NG; unfold getters; apply in_or_app; right; exact X|].
+  split; [rewrite E; reflexivity|]. split; [rewrite E; reflexivity|]. split; [rewrite E; reflexivity|].
+  split; [rewrite E; reflexivity|]. unfold enabled. rewrite C. reflexivity.
 Qed.
 
 Lemma checkout_idle_grants : forall cfg st c s rest,
@@ -774,6 +780,12 @@ Qed.
 (** ** the only way to sit idle on a connection in transaction mode is the F14 class *)
 
 Definition no_idle_hold (st : state) : Prop := forall c s, clients st c <> Holding s IdleHeld.
+
+Lemma clients_put_idle : forall cfg st s, clients (put_idle cfg st s) = clients st.
+Proof.
+  intros. unfold put_idle.
+  destruct (notify_fields (set_idleq st match strat cfg with Fifo => idleq st ++ [s] | Lifo => s :: idleq st end)) as (_ & _ & _ & _ & E & _). rewrite E. reflexivity.
+Qed.
 
 Lemma clients_put_back : forall cfg st s b, clients (put_back cfg st s b) = clients st.
 Proof.
@@ -799,9 +811,7 @@ Proof.
   destruct o as [c|c| | |c fatal|c|c b|c|c|c how b|c|s|s]; cbn in EN, NI; try discriminate.
   - apply nih_try_get, H.
   - apply nih_try_get. exact H.
-  - unfold put_idle. intros d s'. destruct (notify_fields (set_idleq (set_next (set_num (set_pending st (pending st - 1)) (num_conns st + 1)) (S (next_sid st)))
-        match strat cfg with Fifo => idleq st ++ [next_sid st] | Lifo => next_sid st :: idleq st end)) as (_ & _ & _ & _ & E & _).
-    cbn in E. rewrite E. apply H.
+  - intros d s'. rewrite clients_put_idle. cbn. apply H.
   - exact H.
   - cbn. intros d s. apply nih_set; [exact H|destruct fatal; discriminate].
   - destruct (clients st c); try exact H. cbn. intros d s'. apply nih_set; [exact H|discriminate].
@@ -820,4 +830,21 @@ Proof.
   revert H0. generalize init. induction ops as [|o r IH]; intros st H K; cbn; [exact H|].
   cbn in K. apply orb_false_iff in K. destruct K as [K1 K2].
   apply IH; [apply step_no_idle_hold; assumption|exact K2].
+Qed.
+
+(** the F14 witness: pool of one connection, transaction mode; client 0 sends an intercepted
+    Parse/Bind/Execute/Sync, gets its fake reply and sits idle HOLDING connection 0; client 1's
+    checkout waits and times out although nobody is in a transaction. *)
+Definition f14_cfg : config := mkConfig 1 0 Lifo false.
+Definition f14_ops : list op :=
+  [Checkout 0; ConnEstablished; Retry 0; InterceptHold 0; Checkout 1; WaitTimeout 1 false].
+
+Lemma no_idle_hold_refuted_lemma :
+  session_mode f14_cfg = false /\ known_intercept_hold f14_ops = true /\
+  clients (run f14_cfg f14_ops) 0 = Holding 0 IdleHeld /\
+  clients (run f14_cfg f14_ops) 1 = NoServer /\ idleq (run f14_cfg f14_ops) = [] /\
+  ~ no_idle_hold (run f14_cfg f14_ops).
+Proof.
+  repeat split; try (vm_compute; reflexivity).
+  intros H. apply (H 0 0). vm_compute. reflexivity.
 Qed.
